@@ -12,7 +12,7 @@ claimed = {
    note="Trusted: the reference is the same library on fresh objects, so only history dependence is decided. Structure-dependent conservative predicates are compared only on identical cell lists."),
  "C15": dict(level="fault_enumeration", design="§4", technique="deterministic simulation of the storage medium: complete single-fault enumeration on stored bytes and read stream + seeded fault sequences, in address-space-capped worker processes",
    text="For every corpus encoding every truncation, bit flip, byte overwrite, count-field forgery and read error at every offset is applied under three reader shapes (ByteReader, 1 byte per Read, file-like seekable), plus torn reads behind forged windows, whole-stream stride-8 overwrites, seeded multi-fault sequences, splices, loop-level re-assembly, hostile-geometry streams, random bytes, cross-type decoding and decoding into used receivers; Decode must return, must not panic, abort or stall, and a returned value must survive containment, bounds, edge, chain, cell and re-encode calls.",
-   note="Complete per corpus entry for single faults; the corpus itself is sampled. 'Rejected before allocation' is observed through the 8 GiB address-space cap of the workers (an out-of-memory abort counts only if the run reproduces it alone). Wall-clock stall limit 90 s."),
+   note="Complete per corpus entry for single faults; the corpus itself is sampled. 'Rejected before allocation' is observed through the 8 GiB address-space cap of the workers (an out-of-memory abort counts only if the run reproduces it alone). Wall-clock stall limit 90 s; any abort, stall or wall-clock hang is counted only if the run shows it again when executed alone in a fresh process (load and memory pressure are not the library's doing)."),
  "C09": dict(level="fault_enumeration", design="§5", technique="deterministic simulation of the stream: every failing write call and every crash offset enumerated per value; benign reader behaviours enumerated/drawn; seeded value generation (plain workload generation for the value space)",
    text="Encode->simulated medium->Decode: under benign chunking/EOF/zero-read/ByteReader behaviour the decoded value must be bit-identical, answer identically and re-encode identically; for every write call and every byte offset a failing write / crash must never be acknowledged as success. The value space (the property's own quantifier) is only sampled by a steered generator.",
    note="The stream clause is decided by enumeration; the value quantifier is sampled. Bit-identity is judged through the public API plus reflection on depth/hasHoles."),
